@@ -111,6 +111,23 @@ def gen_func(rng, with_spaces):
 DYNI = -9223372036854775808
 
 
+def insert_layout_casts(module, rng):
+    """what set-memory-layout does for the operands of an accelerator operation, applied to linalg.generic ops between two real passes:
+    a snax.layout_cast to a tiled layout in front of (some of) the operands, built with the repository's own helper"""
+    from xdsl.dialects import linalg
+    from xdsl.parser import Parser
+
+    from snaxc.dialects.snax import LayoutCast
+    ctx = repo.opt_main().ctx
+    for g in [o for o in module.walk() if isinstance(o, linalg.GenericOp)]:
+        for i, v in enumerate(list(g.operands)):
+            if rng.random() < 0.7 and str(v.type).startswith("memref<4x4xi8") and "tsl" not in str(v.type):
+                lay = Parser(ctx, rng.choice(LAYOUTS)).parse_attribute()
+                c = LayoutCast.from_type_and_target_layout(v, lay)
+                g.parent_block().insert_op_before(c, g)
+                g.operands[i] = c.results[0]
+
+
 def dense_ints(attr):
     from xdsl.dialects.builtin import DenseIntOrFPElementsAttr
     assert isinstance(attr, DenseIntOrFPElementsAttr)
@@ -199,6 +216,26 @@ def run(pid: str, tier: str, seed: int, selftest=False, replay=None) -> int:
         jobs.append((f"toglobal:{seed}:{k}", text, "pipe:alloc-to-global", None))
     for k in range(40 if quick else 400):
         jobs.append((f"cleared:{seed}:{k}", gen_func(rng, True), "pipe:set-memory-space,realize-memref-casts,clear-memory-space", None))
+    # the real pipeline order: memory spaces first (that inserts the memory-space casts at the function boundary), then layout casts in
+    # front of the accelerator operands (as set-memory-layout does), then realize-memref-casts - on functions that hand a local buffer
+    # written by an accelerator op back to their caller
+    for k in range(30 if quick else 400):
+        base_t = mt()
+        lines = ["    %c0 = arith.constant 0 : index", "    %c1 = arith.constant 1 : index", f"    %l0 = memref.alloc() : {base_t}"]
+        outs = ["%l0"]
+        if rng.random() < 0.4:
+            lines.append(f"    %l1 = memref.alloc() : {base_t}")
+            outs.append("%l1")
+        for j in range(rng.randint(1, 3)):
+            x, y = rng.choice(["%a", "%b"] + (outs if j else [])), rng.choice(["%a", "%b", "%c"])
+            z = outs[j % len(outs)] if j < len(outs) else rng.choice(outs + ["%c"])
+            lines.append(f'    linalg.generic {{indexing_maps = [{ID2}, {ID2}, {ID2}], iterator_types = ["parallel", "parallel"]}} '
+                         f'ins({x}, {y} : {base_t}, {base_t}) outs({z} : {base_t}) attrs = {{tag = {j + 1} : i32}} {{')
+            lines += ["    ^bb0(%x : i8, %y : i8, %z : i8):", "      %mm = arith.muli %x, %y : i8", "      linalg.yield %mm : i8", "    }"]
+        nret = len(outs) if rng.random() < 0.7 else 1
+        text = ("builtin.module {\n  func.func public @f(%a : " + base_t + ", %b : " + base_t + ", %c : " + base_t + ", %n : index) -> (" + ", ".join([base_t] * nret) + ") {\n"
+                + "\n".join(lines) + "\n    func.return " + ", ".join(outs[:nret]) + " : " + ", ".join([base_t] * nret) + "\n  }\n}\n")
+        jobs.append((f"staged:{seed}:{k}", text, "pipe:set-memory-space,@layoutcasts,realize-memref-casts", None))
     # run-time shapes: arguments with dynamic dimensions in any position (a dynamic size behind a static one, a static one between two
     # dynamic ones ...); the buffers the compiler puts next to the accelerator must have the run-time shape of what they stand in for
     for k in range(40 if quick else 500):
@@ -254,7 +291,10 @@ def run(pid: str, tier: str, seed: int, selftest=False, replay=None) -> int:
             pipe = with_spaces[5:]
         m = src.clone()
         try:
-            repo.run_pipeline(m, pipe)
+            for si, stage in enumerate(pipe.split(",@layoutcasts,")):
+                if si > 0:
+                    insert_layout_casts(m, random.Random(text_hash(text)))
+                repo.run_pipeline(m, stage)
             m.verify()
         except Exception as e:
             rep.evaluations += 1
